@@ -202,13 +202,21 @@ func zzC12_notification() {
 	d, _ := reg.MarshalWithEncoder(coder.DefaultCoder)
 	_ = cc.Process(nil, append([]byte(nil), d...))
 	symWaitUntil(func() bool { return odone })
+	// the next notification is fresh, a copy of the first one, or an older one that was overtaken (the last two are
+	// dropped by the observation without reaching the callback: the library still gives them back exactly once)
+	seq2 := []uint32{6, 5, 3}[symChoose("second-notification", 3)]
 	n2 := zzRequest(message.NonConfirmable, 30001, codes.Content, tokO, []byte{tag + 1})
-	n2.SetObserve(6)
+	n2.SetObserve(seq2)
 	d2, _ := n2.MarshalWithEncoder(coder.DefaultCoder)
 	_ = cc.Process(nil, append([]byte(nil), d2...))
 	symIdle()
-	symAssert(inCallback == 2 && len(seen) == 2, "both notifications reach the callback")
-	symCover("notified")
+	if seq2 == 6 {
+		symAssert(inCallback == 2 && len(seen) == 2, "both notifications reach the callback")
+		symCover("notified")
+	} else {
+		symAssert(inCallback == 1 && len(seen) == 1, "a repeated or overtaken notification does not reach the callback")
+		symCover("dropped-notification")
+	}
 	for _, n := range seen {
 		symAssert(symReleased(n), "after the callback returned the library has taken the notification back")
 	}
